@@ -265,6 +265,47 @@ func genTable(r *hx.Rng, name string, nrows int, nullable bool, small bool) xtab
 	return t
 }
 
+// genNarrow: tables of other widths (1, 2, 3 and 5 columns) so that joins combine rows of every
+// width on either side; `k` is the join key everywhere.
+func genNarrow(r *hx.Rng, name string, width, nrows int) xtable {
+	all := []xcol{{"k", "int"}, {"b", "varchar"}, {"id", "int"}, {"c", "boolean"}, {"d", "bigint"}}
+	t := xtable{name: name, cols: all[:width]}
+	for i := 0; i < nrows; i++ {
+		var row []interface{}
+		for _, c := range t.cols {
+			switch c.name {
+			case "k":
+				row = append(row, int64(r.Range(1, 4)))
+			case "id":
+				row = append(row, int64(i+1))
+			default:
+				row = append(row, genVal(r, c.ty, true))
+			}
+		}
+		t.rows = append(t.rows, row)
+	}
+	return t
+}
+
+func execNarrowJoinQueries(d *xdb, r *hx.Rng) {
+	jts := []string{"JOIN", "LEFT JOIN", "RIGHT JOIN"}
+	names := []string{"n1", "n2", "n3", "n5", "t1", "t2"}
+	for i := 0; i < 10; i++ {
+		l, rt := names[r.Intn(len(names))], names[r.Intn(len(names))]
+		if l == rt {
+			continue
+		}
+		d.query(fmt.Sprintf("SELECT * FROM %s %s %s ON %s.k = %s.k", l, jts[r.Intn(3)], rt, l, rt), "exact", "join-widths")
+	}
+	for i := 0; i < 5; i++ {
+		a, b, c := names[r.Intn(4)], names[r.Intn(4)], names[r.Intn(4)]
+		if a == b || b == c || a == c {
+			continue
+		}
+		d.query(fmt.Sprintf("SELECT * FROM %s %s %s ON %s.k = %s.k %s %s ON %s.k = %s.k", a, jts[r.Intn(3)], b, a, b, jts[r.Intn(3)], c, b, c), "exact", "join-widths")
+	}
+}
+
 func litFor(r *hx.Rng, ty string) string {
 	v := genVal(r, ty, r.Bool())
 	if n, ok := v.(int64); ok && n < 0 {
@@ -392,6 +433,13 @@ func runExec(cfg *config) {
 		}
 		if modes["join"] && !nullable {
 			execJoinQueries(d, rr, t1, t2, t3)
+			for _, w := range []struct {
+				n string
+				w int
+			}{{"n1", 1}, {"n2", 2}, {"n3", 3}, {"n5", 5}} {
+				d.load(genNarrow(rr, w.n, w.w, rr.Range(0, 6)))
+			}
+			execNarrowJoinQueries(d, rr)
 		}
 		if modes["agg"] {
 			execAggQueries(d, rr, t1, t2, nullable)
